@@ -130,7 +130,7 @@ def simulated_write(fmt, records, wp, simfile, append=False):
         raise Violation(f'exception-escaped:{type(e).__name__}', f'{W.__name__}.write/close: {e!r}')
     finally:
         # whatever is still buffered above the raw layer is volatile: make sure finalizers cannot push it later
-        raw.write = lambda b: len(b)
+        raw.dead = True
         try:
             tw.detach()
         except Exception:
